@@ -47,7 +47,12 @@ RULE = ('per function (49 incl. the rename/convert suffix-notation forms) x argu
         'convenience forms (convertall, replaceall, convertnumbers, formatall, interpolateall) the statement leaves open '
         'whether "all fields" is resolved at iteration or at the call, so EITHER the fresh view OR a fresh '
         'convert(changed source, <all field positions at construction>, same converter) is accepted - nothing else.  '
-        'states = distinct (tables, arguments[, pass-1 kind, change]) points; transitions = petl evaluations; a case '
+        'THIRD AXIS (row type delivered by the upstream stage): every function x call form x header kind with <=2 '
+        'fields x every argument value x every table with 1-2 rows of every length 0..w+1 x stage 1 in {list rows, '
+        'Record rows via convert(where=never), tuple+Record rows via convert(where=first row), Record rows via '
+        'selectusingcontext, namedtuple rows}: stage 2 (the function) on stage 1 must equal the same call on the '
+        'materialised tuple rows (or raise like it).  '
+        'states = distinct (tables, arguments[, pass-1 kind, change | upstream row type]) points; transitions = petl evaluations; a case '
         'is non-trivial when it has >=1 data row and the expected output differs from the (first) input table or an '
         'input row is ragged.  Excluded because the documentation gives no answer (only the frame conditions - one '
         'output row per input row, built from that row - are checked there, in the "(frame only)" forms): duplicate '
@@ -1013,6 +1018,99 @@ def _guarded(f):
         return ('raised', type(e).__name__, str(e)[:120])
 
 
+# ---------------------------------------------------------------------------------------------
+# third axis: the ROW TYPE delivered by the upstream stage.  Two-stage pipelines: stage 1 delivers the rows of the
+# table as lists / petl Records (the real petl stages that pass Records on) / namedtuples, stage 2 is the function
+# under test; it must yield what it yields on the materialised tuple rows of stage 1.
+# ---------------------------------------------------------------------------------------------
+
+import collections as _collections
+
+_NT_CACHE = {}
+
+
+class _NamedTupleRows(etl.Table):
+    """Header as a tuple, every data row as a namedtuple instance (of the row's own length: ragged rows stay)."""
+
+    def __init__(self, t):
+        self.t = t
+
+    def __iter__(self):
+        yield tuple(self.t[0])
+        for row in self.t[1:]:
+            n = len(row)
+            cls = _NT_CACHE.get(n)
+            if cls is None:
+                cls = _NT_CACHE[n] = _collections.namedtuple('ntrow', ['c%d' % j for j in range(n)])
+            yield cls(*row)
+
+
+def _never(rec):
+    return False
+
+
+def _always3(prv, cur, nxt):
+    return True
+
+
+ROWTYPES = ('list rows', 'Record rows via convert(where=never true)',
+            'tuple+Record rows via convert(where=true for the first row only)',
+            'Record rows via selectusingcontext', 'namedtuple rows')
+
+
+def wrap_rowtype(kind, t):
+    """Stage 1: a table with the same header and the same cells as t whose rows are delivered as `kind`."""
+    if kind == 'list rows':
+        return [list(r) for r in t]
+    if kind == 'Record rows via convert(where=never true)':
+        return etl.convert(t, {}, where=_never)
+    if kind == 'tuple+Record rows via convert(where=true for the first row only)':
+        return etl.convert(t, {}, where=_FirstOnly())
+    if kind == 'Record rows via selectusingcontext':
+        return etl.selectusingcontext(t, _always3)
+    if kind == 'namedtuple rows':
+        return _NamedTupleRows(t)
+    raise KeyError(kind)
+
+
+class _FirstOnly(object):
+    """where-predicate that is true for rows equal to row r0 (cells are position-tagged, so: the first row)."""
+
+    def __call__(self, rec):
+        return any(v.__class__ is str and v.startswith(('r0c', 's0c', 't0c')) for v in rec) or len(rec) == 0
+
+
+def evaluate_rowtype(case):
+    fn = case['fn']
+    kind = case['rowtype']
+    args = R.materialise(tuple(case['args']))
+    kw = R.materialise(dict(case.get('kwargs') or {}))
+    tables = case['tables']
+    hdr = tables[0][0]
+    typed = tuple(wrap_rowtype(kind, t) for t in tables)
+    plain = _guarded(lambda: call_petl(fn, tables, args, kw))
+    obs = _guarded(lambda: normalise(fn, build(fn, typed, args, kw), hdr))
+    nontriv = len(tables[0]) > 1
+    if plain[0] != 'ok':
+        if obs[0] == 'ok':
+            return ('viol', 'yields a result where the same call on tuple rows raises', plain, obs,
+                    'the result depends on the type of the rows delivered by the upstream stage', nontriv, 'noexc')
+        return ('ok', None, None, None, '', nontriv, 'exc')
+    if obs[0] != 'ok':
+        return ('viol', 'raises %s' % obs[1], plain[1], obs,
+                'raises when the upstream stage delivers %s; the same call on the materialised tuple rows works'
+                % kind, nontriv, 'exc')
+    a, b = obs[1], plain[1]
+    if fn in ('dicts', 'columns'):
+        a, b = _canon_dicts(a), _canon_dicts(b)
+    ra = repr(a)
+    if a == b and ra == repr(b):
+        return ('ok', None, None, None, '', nontriv, ra)
+    return ('viol', 'differs from the same call on tuple rows', plain[1], obs[1],
+            'the upstream stage delivers %s; the result differs from the same call on the materialised tuple rows'
+            % kind, nontriv, ra)
+
+
 def _same_result(fn, a, b):
     if a[0] != 'ok' or b[0] != 'ok':
         return a[0] != 'ok' and b[0] != 'ok'
@@ -1164,6 +1262,8 @@ def evaluate(case):
     """-> (status, signature, expected, observed, message, nontrivial, outcome); status in ok/viol/undefined."""
     if case.get('repass'):
         return evaluate_repass(case)
+    if case.get('rowtype'):
+        return evaluate_rowtype(case)
     fn = case['fn']
     tables = case['tables']
     args = R.materialise(tuple(case['args']))
@@ -1260,6 +1360,7 @@ def items(tier, seed):
                         out.append({'fn': fn, 'form': form, 'hdrs': hdrs, 'ns': nn, 'chunk': c, 'chunks': chunks,
                                     'size': -(-total // chunks)})
     out.extend(repass_items(tier))
+    out.extend(rowtype_items(tier))
     # simplest first (violations keep the first case per group): by rows, then width; stable otherwise
     out.sort(key=lambda it: (sum(it['ns']), sum(len(h) for h in it['hdrs'])))
     # the seed rotates the order of equally simple items only
@@ -1316,6 +1417,49 @@ def repass_items(tier):
     return out
 
 
+def rowtype_tables(hdrs, n):
+    ts = [tables1(h, n, LENS_ALL(len(h)), letter) for h, letter in zip(hdrs, 'rst')]
+    return [tuple(x[0] for x in combo) for combo in itertools.product(*ts)]
+
+
+def rowtype_ns(hdrs):
+    return [(n,) * len(hdrs) for n in ((1, 2) if len(hdrs) == 1 else (1,))]
+
+
+def rowtype_items(tier):
+    """Third axis (same space in both tiers): every call form x every header kind with <= 2 fields x EVERY argument
+    value x every table with 1-2 rows of every length 0..w+1 (1 row per input for the multi-table functions) x
+    every upstream row type."""
+    out = []
+    for fn, forms in SPACES.items():
+        for form, (headers, tables, args, ns) in forms.items():
+            for hdrs in headers():
+                for nn in rowtype_ns(hdrs):
+                    ck = (tier, 'rowtype', _N, fn, form, hdrs, nn)
+                    if ck not in _COUNT:
+                        na = len(args(hdrs, nn)) if all(len(h) <= 2 for h in hdrs) else 0
+                        _COUNT[ck] = na * len(rowtype_tables(hdrs, nn[0])) * len(ROWTYPES) if na else 0
+                    total = _COUNT[ck]
+                    if not total:
+                        continue
+                    chunks = max(1, -(-total // (TARGET[tier] // 2)))
+                    for c in range(chunks):
+                        out.append({'fn': fn, 'form': form, 'hdrs': hdrs, 'ns': nn, 'chunk': c, 'chunks': chunks,
+                                    'size': -(-total // chunks), 'mode': 'rowtype'})
+    return out
+
+
+def rowtype_cases(item):
+    fn, form = item['fn'], item['form']
+    headers, tables, args, ns = SPACES[fn][form]
+    hdrs = item['hdrs']
+    prod = itertools.product(args(hdrs, item['ns']), rowtype_tables(hdrs, item['ns'][0]), ROWTYPES)
+    if item['chunks'] > 1:
+        prod = itertools.islice(prod, item['chunk'], None, item['chunks'])
+    for (a, kw), ts, kind in prod:
+        yield {'fn': fn, 'form': form, 'tables': ts, 'args': a, 'kwargs': kw, 'rowtype': kind}
+
+
 def repass_cases(item):
     fn, form = item['fn'], item['form']
     headers, tables, args, ns = SPACES[fn][form]
@@ -1336,6 +1480,8 @@ def bounds(tier, seed):
         k = '%s/%s' % (it['fn'], it['form'])
         if it.get('mode') == 'repass':
             k = 'second pass after source change: ' + it['fn']
+        if it.get('mode') == 'rowtype':
+            k = 'upstream row types: ' + it['fn']
         per[k] = per.get(k, 0) + it['size']
     return {'max_rows': nmax(), 'max_fields': 3, 'functions': len(SPACES), 'call_forms': len(per),
             'field_names': list(_N), 'missing_values': [None, MISS],
@@ -1345,6 +1491,10 @@ def bounds(tier, seed):
 def cases_of(item):
     if item.get('mode') == 'repass':
         for c in repass_cases(item):
+            yield c
+        return
+    if item.get('mode') == 'rowtype':
+        for c in rowtype_cases(item):
             yield c
         return
     fn, form = item['fn'], item['form']
@@ -1368,6 +1518,10 @@ def run_item(item, acc):
     repass = item.get('mode') == 'repass'
     if repass:
         key = '%s (same view iterated again after the source changed)' % FAMILY.get(fn, fn)
+    rowtype = item.get('mode') == 'rowtype'
+    if rowtype:
+        key = '%s fed non-tuple rows by the upstream stage' % FAMILY.get(fn, fn)
+    key0 = key
     n_nt = 0
     n = 0
     for case in cases_of(item):
@@ -1380,13 +1534,20 @@ def run_item(item, acc):
             n_nt += 1
         acc.outcome(outcome)
         if status == 'viol':
+            key = key0
+            if rowtype and _record_rows_on_ragged_table(None, case, None):
+                # one root cause (a petl Record handed on as a row: no IndexError on short rows, no slicing),
+                # whatever the downstream function: one group per failure signature, not per function
+                key = 'any function fed Record rows (by convert(where=) / selectusingcontext) with a short or long row'
             acc.violation('%s | %s' % (key, sig), case, exp, obs,
                           '%s(%s): %s' % (fn, form, msg))
     acc.evals += n
     acc.states += n
     acc.transitions += n
     acc.nontrivial += n_nt
-    if repass:
+    if rowtype:
+        acc.counters['row-type cases:' + fn] += n
+    elif repass:
         acc.counters['second-pass cases:' + fn] += n
         acc.counters['second-pass nontrivial:' + fn] += n_nt
     elif (fn, form) in FRAME_ONLY:
@@ -1414,7 +1575,17 @@ def _is_allfamily_dup(group, case, params):
     return len(set(map(str, hdr))) < len(hdr)
 
 
-CLASSIFIERS = {'convertall_family_duplicate_field_names': _is_allfamily_dup}
+def _record_rows_on_ragged_table(group, case, params):
+    """known-finding classifier: the upstream stage hands petl Record objects on as rows AND an input table has a
+    row shorter or longer than its header (a Record answers `missing` instead of raising IndexError and rejects
+    slices).  Rectangular inputs never match."""
+    if 'Record' not in (case.get('rowtype') or ''):
+        return False
+    return any(len(r) != len(t[0]) for t in case['tables'] for r in t[1:])
+
+
+CLASSIFIERS = {'convertall_family_duplicate_field_names': _is_allfamily_dup,
+               'record_rows_on_ragged_table': _record_rows_on_ragged_table}
 
 
 def vacuity(cov, tier):
